@@ -32,6 +32,11 @@ H0 = 'io_loop::io_loop_handle::IoLoopHandle::'
 
 
 def run(ctx):
+    _run_main6(ctx)
+    _round6(ctx)
+
+
+def _run_main6(ctx):
     m, arms, _ = D.read(ctx)
     with ctx.rule('R04.1', "replies are routed to the reply queue of the frame's own channel", floor=5) as r:
         A.check_script(ctx, r, arms, ('Method', 'n', 'basic', 'QosOk'))
@@ -176,3 +181,11 @@ def run(ctx):
                 paths.append(['callers of check_recv_for_error', sorted(ctx.callers(CRE))])
             r.check(nm, ok, ctx.site(root), built=paths, expected='no Receiver::recv reachable except through the failed-send closure of IoLoopHandle::send',
                     why='a nowait operation that waits for a reply the server never sends would hang')
+
+
+def _round6(ctx):
+    """Rules that are necessary conditions of this property too (found by seeding round 6)."""
+    from rules import arms as A
+    with ctx.rule('R04.10', "a Get reply's content is assembled per channel: each channel slot has its own collector and its tables are the ones C03 states (shared with C03)", floor=36) as r:
+        A.include(ctx, r, 'c03', 'R03.1', pick=(':Get:', 'collect_get:', 'collect_header:idle', 'collect_body:idle', 'collect_header:rowcount', 'collect_body:rowcount'))
+        A.include(ctx, r, 'c03', 'R03.5', pick=('GetOk', 'GetEmpty', ':get:', 'Header/-/-', 'Body/-/-', 'slot-addressing'))
